@@ -20,11 +20,44 @@ ASSUME = ["which lines carry a timestamp (regex + chrono) is a parameter P of th
           "printing: the model of print_sysline_* (parts, 2056-byte buffer) is shared with C13/C19; its macro bodies are regenerated from printers.rs (Gen.Print) and it is tied by component `prt` (real PrinterLogMessage on real Syslines)"]
 
 
+def oracle_yearless_rollover(ctx):
+    """text logs whose timestamps carry NO year and cross a New Year: the year pass walks the file backwards, removes and re-reads messages; whatever it does,
+    stdout must still be the file's bytes (seeded change C02-e left a stale entry behind remove_sysline: the thread panicked, nothing was printed)"""
+    import calendar
+    import os
+    import time as _t
+    from vlib import e2e
+    rng = e2e.Rng(ctx.seed * 389 + 3)
+    fails, ev = [], 0
+    for k in range(ctx.q(3, 12)):
+        t = calendar.timegm((2020, 12, 31, 23, 59, 40)) - rng.below(3) * 86400
+        lines = []
+        for i in range(rng.range(6, 40)):
+            t += rng.pick([0, 1, 7, 3600, 40000])
+            lines.append((_t.strftime('%b %e %H:%M:%S', _t.gmtime(t)) + ' host prog[%d]: r%03d ' % (100 + i, i)).encode() + e2e.text_line(rng, 3, 40, weird=False) + b'\n')
+            if rng.chance(1, 4):
+                lines.append(b'    continuation of r%03d\n' % i)
+        data = b''.join(lines)
+        path = os.path.join(ctx.work, 'c02_rollover_%d.log' % k)
+        open(path, 'wb').write(data)
+        os.utime(path, (t + 3600, t + 3600))
+        for extra in ([], ['--blocksz', '64'], ['--blocksz', str(rng.pick([100, 256, 1000]))]):
+            rc, out, err, _ = text_oracles.run_plain(path, extra)
+            ev += 1
+            if rc != 0 or out != data:
+                fails.append({'signature': 'bytes:stdout-differs-from-file', 'detail': f'year-less log crossing New Year, args {extra}: rc={rc}, {len(out)} bytes printed, file has {len(data)}; stderr {err[-160:]!r}',
+                              'args': e2e.BASE_ARGS + extra + ['FILE'], 'file_hex': data.hex() if len(data) < 6000 else 'large'})
+        os.unlink(path)
+    return {'evaluations': ev, 'distinct_nontrivial': ev, 'failures': fails, 'samples': [],
+            'rule': 'year-less (RFC 3164) logs crossing 31 December -> 1 January with the modification time in January, at three block sizes: stdout == the file\'s bytes'}
+
+
 def oracle(ctx):
     a = text_oracles.oracle_bytes(ctx, ctx.q(40, 400))
     b = text_oracles.known_gate_witnesses(ctx)
     c = text_oracles.search_from_disagreements(ctx, getattr(ctx, 'corr_results', []))
-    return core.merge_oracles([a, b, c])
+    d = oracle_yearless_rollover(ctx)
+    return core.merge_oracles([a, b, c, d])
 
 
 def check(ctx):
